@@ -182,6 +182,10 @@ type Machine struct {
 	apiFns         map[*ssa.Function]bool
 	lw             *Lowerer
 	lf             *Lifter
+	b58inv         map[*Term]*Term
+	natBytes       map[*Term][]*Term
+	b58enc         map[*Term]*b58Rec
+	b58pos         map[*Term]b58Pos
 	liftFailed     bool
 	lowerFail      int
 	panicDetail    string
@@ -338,9 +342,11 @@ func NewMachine(sh *Shared, id int) (*Machine, error) {
 	}
 	m.lw = NewLowerer(m.TT)
 	m.lf = NewLifter(m.TT)
+	m.natBytes = map[*Term][]*Term{}
 	m.stubs = sh.Spec.Stubs
 	m.intrinsic = map[string]intrinsicFn{}
 	registerIntrinsics(m)
+	registerBase58Intrinsics(m)
 	return m, nil
 }
 
@@ -386,6 +392,8 @@ func (m *Machine) runPath(entry *ssa.Function, prefix Prefix) {
 	m.pathNotes = nil
 	m.ghost = map[string]Value{}
 	m.ufSeq = 0
+	m.b58inv, m.b58enc, m.b58pos = map[*Term]*Term{}, map[*Term]*b58Rec{}, map[*Term]b58Pos{}
+	m.natBytes = map[*Term][]*Term{}
 	m.fuel = m.Spec.Fuel
 	if m.fuel == 0 {
 		m.fuel = 50_000_000
